@@ -104,7 +104,10 @@ Inductive hop :=
 | HPop                                   (* parent.meta.pop(): the last meta item; IndexError *)
 | HClear                                 (* parent.meta.clear(): drop_many(_raw_indexes): comments stay *)
 | HSetIndentBy (s : str)                 (* parent.indent_by = s *)
-| HSetIndent (s : str).                  (* posting.indent = s (entries have no indent: not generated) *)
+| HSetIndent (s : str)                   (* posting.indent = s (entries have no indent: not generated) *)
+| HDeepCopy.                             (* parent = copy.deepcopy(parent / its transaction / the file): the
+                                            generated clone() rebuilds the node from its cloned children and
+                                            forwards indent_by=self.indent_by; the history goes on under the copy *)
 
 (* del: for i, item in enumerate(self): if item.key == index: return super().__delitem__(i) *)
 Fixpoint del_key (k : Z) (l : list item) : list item :=
@@ -132,6 +135,7 @@ Definition hstep (p : parent) (o : hop) : parent * res unit :=
   | HSetIndentBy s => (mkparent (p_indent p) s (p_items p), Ok tt)
   | HSetIndent s => (mkparent (match p_indent p with Some _ => Some s | None => None end)
                               (p_indent_by p) (p_items p), Ok tt)
+  | HDeepCopy => (mkparent (p_indent p) (p_indent_by p) (p_items p), Ok tt)
   end.
 
 Fixpoint hrun (p : parent) (ops : list hop) : parent :=
